@@ -137,6 +137,9 @@ def check_order_only(rep, w: Walker, pre: str = "", events: List[Event] = None) 
                 return
             if tag in ("max", "min"):
                 for x in t[1]:
+                    if not fl.tainted(x) and x not in ALLOWED_CONST and x[0] in ("K", "const"):
+                        # min(w, 100000): a clip at a fixed number keeps the order of the weights only below it
+                        bad(ev, t, f"an extremum with the scale-dependent value '{show(x)}'")
                     scan(x, ev, "ext")
             elif tag == "sel":
                 scan(t[1], ev, "condition")
